@@ -375,6 +375,61 @@ class C20Entry:
         return runner.selftest_pure(_window())
 
 
+class C18Entry:
+    """C18 = Seg (TLC-enumerated cases on the real functions) + the segment_time_series calls RECORDED from the repository's own
+    tests (guarded tracing hook), split per calendar month and judged by the same trace specification."""
+
+    def _recorded(self, tier):
+        from drivers import seg_repo
+        common.setup_env()
+        recs, summary = seg_repo.record(tlc.workdir("seg_repo"))
+        cases, skipped = [], []
+        for r in recs:
+            c = seg_repo.convert(len(cases), r)
+            if isinstance(c, dict):
+                skipped.append({"test": r.get("test", ""), "why": c["skip"]})
+            else:
+                cases.extend(c)
+        if not cases:
+            raise tlc.TLCError("the repository's segmentation tests produced no recorded call (hook not active?): %s" % summary)
+        return runner.run_recorded(
+            "C18", tier, trace_module="SegTrace", tag="seg_repo_trace", cases=cases, skipped=skipped, summary=summary,
+            evidence_suffix="_repotests", spec_files=["SegDefs.tla", "SegTrace.tla"], nontrivial=seg_repo.nontrivial, module="SegRepoTests",
+            rule="every public call of segment_time_series made by the repository's own tests (tests/test_segmentation.py, test_caltrack_hourly.py, "
+                 "test_caltrack_design_matrices.py, run with the guarded tracing hook) is split into one `weights` case per calendar month its "
+                 "index touches and judged by SegTrace.tla; non-trivial = any segment type but `single`",
+            assumptions=["recorded calls: with drop_zero_weight_segments the dropped columns are read as zero weight (that is what the option drops); "
+                         "calls with an undocumented segment type are listed as skipped, not judged"])
+
+    def run(self, tier):
+        rc1 = runner.run_pure(_seg(), tier)
+        rc2 = self._recorded(tier)
+        runner.merge_evidence("C18", ["C18", "C18_repotests"])
+        return 1 if (rc1 or rc2) else 0
+
+    def replay(self, payload):
+        if payload.get("recorded"):
+            from . import pure
+            from drivers import seg_repo
+            common.setup_env()
+            recs, summary = seg_repo.record(tlc.workdir("seg_repo"))
+            cases = []
+            for r in recs:
+                c = seg_repo.convert(len(cases), r)
+                if isinstance(c, list) and r.get("test", "").split(" ")[0] == payload.get("test"):
+                    cases.extend(c)
+            rej, _ = pure.validate("SegTrace", cases, "seg_repo_trace") if cases else ({}, 0)
+            own = sorted(set(sum(rej.values(), [])))
+            if own:
+                print("VIOLATION property=C18 replay=(calls recorded from %s) clauses=%s" % (payload.get("test"), ",".join(own)))
+            print("C18 replay: %d cases recorded from %s, %d rejected" % (len(cases), payload.get("test"), len(rej)))
+            return 1 if own else 0
+        return runner.run_pure(_seg(), "quick", only_cases=[payload["case"]])
+
+    def selftest(self):
+        return runner.selftest_pure(_seg())
+
+
 class C12Entry:
     def run(self, tier):
         # structural half: the refine / reduce / read-back chain on exact rationals; violations are leads, not verdicts
@@ -457,7 +512,7 @@ class LifeEntry:
         return lifeprops.selftest(self.prop)
 
 
-_REG = {"C20": lambda: C20Entry(), "C07": lambda: C07Entry(), "C19": lambda: PureEntry(_agg()), "C06": lambda: C06Entry(), "C18": lambda: PureEntry(_seg()), "C14": lambda: PureEntry(_settings()), "C10": lambda: PureEntry(_suff()), "C13": lambda: PureEntry(_split()), "C17": lambda: PureEntry(_prep()), "C16": lambda: PureEntry(_metrics()), "C11": lambda: PureEntry(_curve()), "C12": lambda: C12Entry(), "C08": lambda: PureEntry(_resample("C08")), "C09": lambda: PureEntry(_resample("C09"))}
+_REG = {"C20": lambda: C20Entry(), "C07": lambda: C07Entry(), "C19": lambda: PureEntry(_agg()), "C06": lambda: C06Entry(), "C18": lambda: C18Entry(), "C14": lambda: PureEntry(_settings()), "C10": lambda: PureEntry(_suff()), "C13": lambda: PureEntry(_split()), "C17": lambda: PureEntry(_prep()), "C16": lambda: PureEntry(_metrics()), "C11": lambda: PureEntry(_curve()), "C12": lambda: C12Entry(), "C08": lambda: PureEntry(_resample("C08")), "C09": lambda: PureEntry(_resample("C09"))}
 for _p in ("C01", "C02", "C03", "C04", "C05"):
     _REG[_p] = (lambda p: (lambda: LifeEntry(p)))(_p)
 
